@@ -5,9 +5,10 @@
    source's traversal budget.
    Standing assumptions: [msg_ok] for the source; [dok] for the destination (builder invariant
    [inv] + every segment at most maxSegmentSize bytes); strict reader; the copied pointer was
-   handed out by the reader ([wf_ptr]) and has a reader-made shape ([shape_ok], see the
-   finding at copy_unaligned_refuted: a struct taken from an element of a 1/2/4-byte list
-   violates it and makes writePtr panic). *)
+   handed out by the reader ([wf_ptr]) and, for lists, has a reader-made shape ([shape_ok]).
+   Structs need no shape condition in the repaired code (writePtr pads the copy's data section
+   to a word); as found, a struct taken from an element of a 1/2/4-byte list makes writePtr
+   panic: copy_unaligned_refuted. *)
 From CV Require Import Core.Builder Core.ReaderFacts Core.BuilderFacts Core.AllocProofs
                        Core.WritePtrProofs Core.HeapProofs Core.CopyProofs Core.LimitProofs.
 From Coq Require Import ZifyBool ZifyNat.
@@ -21,7 +22,7 @@ Definition prim_size (sz : ObjectSize) : Prop :=
 Definition shape_ok (p : Ptr) : Prop :=
   p_valid p = true ->
   match p_kind p with
-  | KStruct => DataSize (p_size p) mod 8 = 0
+  | KStruct => True
   | KList => if p_comp p then 8 <= p_off p /\ DataSize (p_size p) mod 8 = 0 /\ p_bit p = false
              else if p_bit p then True else prim_size (p_size p)
   | KIface => True
@@ -40,8 +41,7 @@ Proof.
   destruct (pointerType val =? structPointer).
   { unfold readStructPtr. destruct (element base (ptr_offset val) 8); [|discriminate].
     destruct (negb _); [discriminate|].
-    destruct (canRead _ _) as [[|] r]; cbn [fst]; intros H; inversion H. intros _. cbn [p_kind p_size].
-    rewrite structSize_data. rewrite Z.mul_comm. apply Z.mod_mul. lia. }
+    destruct (canRead _ _) as [[|] r]; cbn [fst]; intros H; inversion H. intros _. exact I. }
   destruct (pointerType val =? listPointer).
   { unfold readListPtr. destruct (element base (ptr_offset val) 8) as [a|] eqn:EE; [|discriminate].
     apply element_spec in EE.
@@ -303,6 +303,100 @@ Proof.
   rewrite pointerAddress_eq by lia. unfold region_ok. lia.
 Qed.
 
+(* ------------------------------------------------------------------ unfolding equations (repaired variant) *)
+Lemma write_ptr_S f strict w dsid off l src forceCopy :
+  write_ptr (S f) strict w dsid off l src forceCopy =
+    if negb (p_valid src) then lift0 w (writeRawPointer (w_dst w) dsid off 0) else
+    match p_kind src with
+    | KIface =>
+      if is_src l then
+        let m := w_dst w in
+        let c := zlen (bm_caps m) in
+        let m1 := mkBM (bm_arena m) (bm_segs m) (bm_caps m ++ [p_len src]) (bm_rl m) in
+        lift0 w (writeRawPointer m1 dsid off (rawInterfacePointer (u32 c)))
+      else lift0 w (writeRawPointer (w_dst w) dsid off (rawInterfacePointer (p_len src)))
+    | KStruct =>
+      if os_isZero (p_size src) then
+        do v <- of_opt_panic (rawStructPointer (-1) (mkOS 0 0));
+        lift0 w (writeRawPointer (w_dst w) dsid off v)
+      else
+        do r <- (if forceCopy || is_src l || p_member src then
+                   let csz := mkOS (padToWord (DataSize (p_size src))) (PointerCount (p_size src)) in
+                   do a <- alloc (w_dst w) dsid (totalSize csz);
+                   let '(m1, nsid, naddr) := a in
+                   let dstp := mkPtr true nsid naddr 0 csz maxDepth KStruct false false false in
+                   do w2 <- copy_struct f strict (w_set_dst w m1) dstp l src;
+                   Ok (w2, dstp)
+                 else Ok (w, src));
+        let '(w', st) := r in
+        do raw <- of_opt_panic (rawStructPointer 0 (p_size st));
+        place w' dsid off (p_seg st) (p_off st) raw
+    | KList =>
+      do r <- (if forceCopy || is_src l then
+                 let sz := list_allocSize src in
+                 do a <- alloc (w_dst w) dsid sz;
+                 let '(m1, nsid, naddr) := a in
+                 let w1 := w_set_dst w m1 in
+                 do x <- (if p_comp src then
+                            do tag <- readRawPointer (nth (Z.to_nat (p_seg src)) (w_segs w1 l) []) (u32 (p_off src - 8));
+                            do w2 <- lift0 w1 (writeRawPointer (w_dst w1) nsid naddr tag);
+                            match addSize naddr 8 with
+                            | None => Err
+                            | Some o => Ok (w2, o, u32 (sz - 8))
+                            end
+                          else Ok (w1, naddr, sz));
+                 let '(w2, doff, sz') := x in
+                 let dstl := mkPtr true nsid doff (p_len src) (p_size src) maxDepth KList (p_comp src) (p_bit src) false in
+                 do w3 <- (if p_bit src || (PointerCount (p_size src) =? 0) then
+                             copy_bytes w2 l (p_seg src) (p_off src) nsid doff sz'
+                           else
+                             fold_res (iota (Z.to_nat (list_len src))) w2
+                               (fun wa i =>
+                                  do de <- list_struct true dstl i;
+                                  do se <- list_struct true src i;
+                                  copy_struct f strict wa de l se));
+                 Ok (w3, dstl)
+               else Ok (w, src));
+      let '(w', lst) := r in
+      let taddr := if p_comp lst then u32 (p_off lst - 8) else p_off lst in
+      do raw <- list_raw lst;
+      place w' dsid off (p_seg lst) taddr raw
+    end.
+Proof. reflexivity. Qed.
+
+Lemma copy_struct_S f strict w dst l src :
+  copy_struct (S f) strict w dst l src =
+    if negb (p_valid dst) then Panic
+    else if negb (p_valid src) then Ok w
+    else
+      do srcData <- slice (nth (Z.to_nat (p_seg src)) (w_segs w l) []) (p_off src) (DataSize (p_size src));
+      do dstData <- slice (nth (Z.to_nat (p_seg dst)) (bm_data (w_dst w)) []) (p_off dst) (DataSize (p_size dst));
+      let n := Nat.min (length srcData) (length dstData) in
+      do w1 <- lift0 w (seg_write (w_dst w) (p_seg dst) (p_off dst)
+                                  (firstn n srcData ++ repeat 0 (length dstData - n)));
+      let ns := PointerCount (p_size src) in
+      let nd := PointerCount (p_size dst) in
+      do w2 <- fold_res (iota (Z.to_nat (Z.min ns nd))) w1
+                 (fun wa j =>
+                    let '(r, rl') := readPtr strict (w_segs wa l) (w_rl wa l) (p_seg src)
+                                             (nth (Z.to_nat (p_seg src)) (w_segs wa l) [])
+                                             (pointerAddress src j) (p_depth src) in
+                    do q <- r;
+                    write_ptr f strict (w_set_rl wa l rl') (p_seg dst) (pointerAddress dst j) l q true);
+      fold_res (map (fun k => ns + k) (iota (Z.to_nat (nd - ns)))) w2
+               (fun wa j => lift0 wa (writeRawPointer (w_dst wa) (p_seg dst) (pointerAddress dst j) 0)).
+Proof. reflexivity. Qed.
+Lemma write_ptr_O strict w dsid off l src fc : write_ptr 0 strict w dsid off l src fc = Err.
+Proof. reflexivity. Qed.
+Lemma copy_struct_O strict w dst l src : copy_struct 0 strict w dst l src = Err.
+Proof. reflexivity. Qed.
+
+(* the padded size of a struct copy *)
+Lemma pad_size_wf sz : wf_size sz ->
+  let sz' := mkOS (padToWord (DataSize sz)) (PointerCount sz) in
+  wf_size sz' /\ DataSize sz <= DataSize sz' /\ DataSize sz' mod 8 = 0.
+Proof. intros [H1 H2]. unfold wf_size, padToWord, u32. cbn [DataSize PointerCount]. lia. Qed.
+
 (* ------------------------------------------------------------------ the copy never panics *)
 Definition P_wp (f : nat) : Prop := forall w dsid off src fc,
   dok (w_dst w) -> msg_ok (w_src w) -> 0 <= w_src_rl w -> region_ok (w_dst w) dsid off 8 ->
@@ -315,7 +409,7 @@ Definition P_cs (f : nat) : Prop := forall w dst src,
 
 Lemma cs_step f : P_wp f -> P_cs (S f).
 Proof.
-  intros IH w dst src Hd Hm Hr Hdst Hs. pose proof Hdst as (Vd & Zd & Rd). cbn [copy_struct].
+  intros IH w dst src Hd Hm Hr Hdst Hs. pose proof Hdst as (Vd & Zd & Rd). rewrite copy_struct_S. cbv zeta.
   rewrite Vd. cbn [negb]. destruct (p_valid src) eqn:Vs; cbn [negb]; [|cbn; apply wgood_refl; assumption].
   cbn [w_segs]. change (nth (Z.to_nat (p_seg src)) (w_src w) []) with (seg_of (w_src w) src).
   destruct (src_data_slice _ src Hm Hs Vs) as [-> Ls]. cbn [bind].
@@ -377,7 +471,7 @@ Qed.
 
 Lemma wp_step f : P_cs f -> P_wp (S f).
 Proof.
-  intros IH w dsid off src fc Hd Hm Hr Hreg Hs Hsh. cbn [write_ptr].
+  intros IH w dsid off src fc Hd Hm Hr Hreg Hs Hsh. rewrite write_ptr_S.
   destruct (p_valid src) eqn:V; cbn [negb]; [|apply lift0_write_safe; assumption].
   pose proof (Hs V) as [Hseg Hobj]. specialize (Hsh V). unfold wf_obj in Hobj.
   destruct (p_kind src) eqn:K.
@@ -386,23 +480,25 @@ Proof.
     destruct (os_isZero (p_size src)).
     { destruct (rawStructPointer (-1) (mkOS 0 0)) eqn:E; [|vm_compute in E; discriminate].
       cbn [of_opt_panic bind]. apply lift0_write_safe; assumption. }
-    cbn [is_src]. rewrite Bool.orb_true_r. cbn [orb].
-    pose proof (alloc_nopanic (w_dst w) dsid (totalSize (p_size src))) as NP.
-    destruct (alloc (w_dst w) dsid (totalSize (p_size src))) as [[[m1 nsid] naddr]| |] eqn:EA; cbn [bind];
+    cbn [is_src]. rewrite Bool.orb_true_r. cbn [orb]. cbv zeta.
+    destruct (pad_size_wf _ Hz) as (Hzc & Hle & H8). cbv zeta in Hzc, Hle, H8.
+    set (csz := mkOS (padToWord (DataSize (p_size src))) (PointerCount (p_size src))) in *.
+    pose proof (alloc_nopanic (w_dst w) dsid (totalSize csz)) as NP.
+    destruct (alloc (w_dst w) dsid (totalSize csz)) as [[[m1 nsid] naddr]| |] eqn:EA; cbn [bind];
       [|exact I|congruence].
-    pose proof (totalSize_bound _ Hz) as Hts.
-    destruct (alloc_safe (w_dst w) dsid (totalSize (p_size src)) m1 nsid naddr Hd (proj1 Hreg) ltac:(lia) EA)
+    pose proof (totalSize_bound _ Hzc) as Hts.
+    destruct (alloc_safe (w_dst w) dsid (totalSize csz) m1 nsid naddr Hd (proj1 Hreg) ltac:(lia) EA)
       as (D1 & G1 & S1 & A0 & A1 & A2 & A3 & _).
     assert (wgood w (w_set_dst w m1)) as Gw1 by (apply wgood_set_dst; auto).
-    set (dstp := mkPtr true nsid naddr 0 (p_size src) maxDepth KStruct false false false).
+    set (dstp := mkPtr true nsid naddr 0 csz maxDepth KStruct false false false).
     pose proof (IH (w_set_dst w m1) dstp src D1 Hm Hr) as C.
     assert (dst_ok m1 dstp) as Hdo.
-    { split; [reflexivity|]. split; [exact Hz|]. unfold dstp, region_ok. cbn [p_seg p_off p_size].
-      rewrite (totalSize_wf _ Hz) in *. lia. }
+    { split; [reflexivity|]. split; [exact Hzc|]. unfold dstp, region_ok. cbn [p_seg p_off p_size].
+      rewrite (totalSize_wf _ Hzc) in *. lia. }
     specialize (C Hdo (conj Hs (fun _ => K))).
     destruct (copy_struct f true (w_set_dst w m1) dstp InSrc src) as [w2| |]; cbn [bind]; [|exact I|exact C].
     cbn [rpost] in C. pose proof (wgood_trans _ _ _ Gw1 C) as G2. destruct G2 as (D2 & Gr2 & S2 & R2).
-    destruct (rawStructPointer_some 0 (p_size dstp) Hsh) as [raw ->]. cbn [of_opt_panic bind].
+    destruct (rawStructPointer_some 0 (p_size dstp) H8) as [raw ->]. cbn [of_opt_panic bind].
     eapply rpost_trans; [split; [exact D2|split; [exact Gr2|split; [exact S2|exact R2]]]|].
     apply place_safe; auto; try lia.
     + eapply region_grows; eassumption.
@@ -523,7 +619,7 @@ Qed.
 Theorem copy_all : forall f, P_wp f /\ P_cs f.
 Proof.
   induction f as [|f [IHw IHc]].
-  - split; intros ?; intros; exact I.
+  - split; intros ?; intros; [rewrite write_ptr_O|rewrite copy_struct_O]; exact I.
   - split; [apply wp_step; assumption|apply cs_step; assumption].
 Qed.
 
@@ -547,23 +643,20 @@ Proof. destruct (copy_all f) as [_ H]. apply H. Qed.
 Theorem reader_ptr_shape strict m rl sid s paddr depth q :
   fst (readPtr strict m rl sid s paddr depth) = Ok q -> shape_ok q.
 Proof. exact (readPtr_shape strict m rl sid s paddr depth q). Qed.
-(* ... and so have the elements of a composite list it handed out *)
-Lemma list_struct_shape fd p i e : shape_ok p -> p_kind p = KList -> p_comp p = true ->
-  list_struct fd p i = Ok e -> shape_ok e.
+(* ... and so has every list element (a struct needs no shape in the repaired code) *)
+Lemma list_struct_shape fd p i e : list_struct fd p i = Ok e -> shape_ok e.
 Proof.
-  intros Hs K C. unfold list_struct. destruct (_ || _ || _) eqn:E; [discriminate|].
-  assert (p_valid p = true) as V by (destruct (p_valid p); [reflexivity|discriminate]).
-  specialize (Hs V). rewrite K, C in Hs.
+  unfold list_struct. destruct (_ || _ || _); [discriminate|].
   destruct (p_bit p); [intros H; inversion H; apply shape_null|].
-  destruct (element _ _ _); intros H; inversion H; [|apply shape_null].
-  intros _. cbn [p_kind p_size]. apply Hs.
+  destruct (element _ _ _); intros H; inversion H; [|apply shape_null]. intros _. exact I.
 Qed.
 
-(* FINDING (reproduced on the Go code, repo 38ec570): without [shape_ok] the statement is
-   false.  List.Struct(i) on a byte list hands out a Struct of DataSize 1 (what generated
-   StructList.At(i) does when a hostile message supplies a byte list for a List(struct)
-   field); copying it with SetRoot / SetPtr panics in rawStructPointer ("data size not
-   aligned by word"). *)
+(* FINDING (reproduced on the Go code at repo 38ec570, repaired since by "fix: writePtr pads the
+   data section of a copied list-member struct to a whole word"): as found (write_ptr_asfound)
+   the statement is false.  List.Struct(i) on a byte list hands out a Struct of DataSize 1 (what
+   generated StructList.At(i) does when a hostile message supplies a byte list for a
+   List(struct) field); copying it with SetRoot / SetPtr panics in rawStructPointer ("data size
+   not aligned by word").  The repaired variant copies it (zero-extended to a word). *)
 Definition unaligned_msg : segs := [[0;0;0;0;0;0;1;0;  1;0;0;0;26;0;0;0;  104;105;0;0;0;0;0;0]].
 Example copy_unaligned_refuted :
   let c := mkCfg 0 0 true true in
@@ -573,7 +666,8 @@ Example copy_unaligned_refuted :
     fst (struct_ptr c unaligned_msg 1000 r 0) = Ok l /\
     list_struct true l 0 = Ok e /\ wf_ptr unaligned_msg e /\ p_size e = mkOS 1 0 /\
     new_message ASingle [] 0 = Ok m0 /\ dok m0 /\
-    set_root 8 (mkW m0 unaligned_msg 1000) InSrc e = Panic.
+    write_ptr_asfound 8 true (mkW m0 unaligned_msg 1000) 0 0 InSrc e false = Panic /\
+    exists w', write_ptr 8 true (mkW m0 unaligned_msg 1000) 0 0 InSrc e false = Ok w'.
 Proof.
   split; [repeat constructor; cbn; try lia; unfold maxSegmentSize; lia|].
   do 4 eexists. split; [vm_compute; reflexivity|]. split; [vm_compute; reflexivity|].
@@ -584,7 +678,7 @@ Proof.
     - repeat constructor; cbn; lia.
     - intros _. reflexivity.
     - intros i. unfold mem, get_seg. cbn. destruct (Z.to_nat i) as [|[|n]]; cbn; unfold maxSegmentSize; lia. }
-  vm_compute. reflexivity.
+  split; [vm_compute; reflexivity|]. eexists. vm_compute. reflexivity.
 Qed.
 
 (* ------------------------------------------------------------------ fuel *)
@@ -627,10 +721,10 @@ Qed.
 Lemma wp_stable_step f : S_cs f -> S_wp (S f).
 Proof.
   intros IH strict w dsid off l src fc Hd Hn. unfold wneed in Hn.
-  cbn [write_ptr]. destruct (p_valid src) eqn:V; cbn [negb]; [|reflexivity]. specialize (Hd V).
+  rewrite !write_ptr_S. destruct (p_valid src) eqn:V; cbn [negb]; [|reflexivity]. specialize (Hd V).
   destruct (p_kind src) eqn:K; [| |reflexivity].
   - destruct (os_isZero (p_size src)); [reflexivity|].
-    destruct (fc || is_src l || p_member src); [|reflexivity].
+    destruct (fc || is_src l || p_member src); [|reflexivity]. cbv zeta.
     destruct (alloc _ _ _) as [[[m1 nsid] naddr]| |]; cbn [bind]; try reflexivity.
     rewrite (IH strict); [reflexivity|intros _; assumption|]. unfold cneed. rewrite V. lia.
   - destruct (fc || is_src l); [|reflexivity].
@@ -650,7 +744,7 @@ Qed.
 Lemma cs_stable_step f : S_wp f -> S_cs (S f).
 Proof.
   intros IH strict w dst l src Hd Hn. unfold cneed in Hn.
-  cbn [copy_struct]. destruct (negb (p_valid dst)); [reflexivity|].
+  rewrite !copy_struct_S. destruct (negb (p_valid dst)); [reflexivity|].
   destruct (p_valid src) eqn:V; cbn [negb]; [|reflexivity]. specialize (Hd V).
   destruct (slice _ _ _); cbn [bind]; try reflexivity.
   destruct (slice _ _ _); cbn [bind]; try reflexivity.
